@@ -32,7 +32,8 @@ META = {
 RESULTS = ("auto/ragged", "cross/ragged", "auto/equalK", "cross/equalK", "auto/single", "cross/single", "cross/LminN", "auto/LminN",
            "auto/singlefres", "cross/singlefres", "cross/delayed")
 BIG = ("auto/manybins", "cross/manybins",    # relation table only (1600 bins)
-       "auto/tinyfs", "cross/tinyfs", "cross/hugefs")   # relation table, interpolation and export in nano-hertz / mega-hertz units
+       "auto/tinyfs", "cross/tinyfs", "cross/hugefs",
+       "cross/unitgap", "cross/unitgap2")   # channels whose units are 160 decades apart (|Hxy| ~ 1e160 / 1e-160)   # relation table, interpolation and export in nano-hertz / mega-hertz units
 
 
 def make_raw(kind, seed=0):
@@ -52,6 +53,10 @@ def make_raw(kind, seed=0):
         kw.update(Lmin=N)
     if shape == "delayed":
         kw.update(Lmin=64, Jdes=40)
+    if shape == "unitgap":
+        x, y = x * 1e-100, y * 1e60
+    if shape == "unitgap2":
+        x, y = x * 1e60, y * 1e-100
     if shape == "tinyfs":
         fs = 3e-8
     if shape == "hugefs":
